@@ -90,3 +90,24 @@ Proof.
   - cbn [Nat.add wallace_loop]. destruct (all_le2 cols) eqn:E; [assumption|].
     apply IH. assumption.
 Qed.
+
+(* since fix be08f74 _sparse_adder never raises, so wallace_reducer always returns
+   when the column array is not longer than the result width *)
+Lemma sparse_split_total_some cols : exists pre z, sparse_split_total cols = Some (pre, z).
+Proof.
+  induction cols as [|c rest (pre & z & IH)]; cbn [sparse_split_total].
+  - eexists; eexists; reflexivity.
+  - destruct (length c =? 2)%nat; [eexists; eexists; reflexivity|].
+    rewrite IH. eexists; eexists; reflexivity.
+Qed.
+
+Theorem wallace_reducer_returns add cols rw :
+  (length cols <= rw)%nat -> exists r, wallace_reducer add cols rw = Some r.
+Proof.
+  intros H. unfold wallace_reducer, wallace_reducer_fuel.
+  replace (rw <? length cols)%nat with false by lia.
+  destruct (wallace_fuel_sufficient cols rw) as [c' ->].
+  unfold sparse_adder, sparse_adder_with.
+  destruct (sparse_split_total_some c') as (pre & z & ->).
+  destruct z; eexists; reflexivity.
+Qed.
